@@ -74,10 +74,10 @@ func (c Context) Getenv(key string) string {
 
 // Setenv sets the value of the environment variable named by the key.
 func (c *Context) Setenv(key, value string) {
-	if c.Env == nil {
-		c.Env = []string{}
-	}
-	c.Env = append(c.Env, fmt.Sprintf("%v=%v", key, value))
+	// never append in place: the backing array may be shared with the caller's and with sibling contexts
+	env := make([]string, len(c.Env), len(c.Env)+1)
+	copy(env, c.Env)
+	c.Env = append(env, fmt.Sprintf("%v=%v", key, value))
 }
 
 // Envsubst replaces ${var} in the string based on environment variables in current context.
